@@ -226,7 +226,7 @@ impl Prop for C15 {
         for l in ["greville", "natural(2,2)", "clamped(1,1)", "mixed-end-derivatives", "least-squares", "perturbed-greville", "bunched-in-first-interval"] {
             v.push(format!("layout:{}", l));
         }
-        for d in ["random", "polynomial", "dual-data", "dual2-data", "dual-abscissa", "dual2-abscissa", "python-layer", "basis-dual-abscissa", "basis-dual2-abscissa", "solved-again-on-same-object", "solved-on-object-created-with-coefficients", "mismatched-counts-rejected", "evaluate-before-solve-rejected"] {
+        for d in ["random", "polynomial", "dual-data", "dual2-data", "dual-abscissa", "dual2-abscissa", "python-layer", "dual-data-at-dual-abscissa", "dual2-data-at-dual2-abscissa", "basis-dual-abscissa", "basis-dual2-abscissa", "solved-again-on-same-object", "solved-on-object-created-with-coefficients", "mismatched-counts-rejected", "evaluate-before-solve-rejected"] {
             v.push(format!("check:{}", d));
         }
         for c in ["f64xF64", "f64xDual", "f64xDual2", "DualxF64", "DualxDual", "DualxDual2(refused)", "Dual2xF64", "Dual2xDual(refused)", "Dual2xDual2"] {
@@ -609,6 +609,29 @@ impl Prop for C15 {
                         return;
                     }
                 };
+                // the same point reached as a dual-number abscissa (constant, and with a variable of its own):
+                // same value and data sensitivities, and d/dxv = the spline's own first derivative
+                {
+                    let r = guarded(|| (sd.ppdnev_single_dual(&Dual::new(*x, vec![]), 0).ok(), sd.ppdnev_single_dual(&Dual::new(*x, vec!["xv".to_string()]), 0).ok(), sd.ppdnev_single(x, 1).ok()));
+                    ctx.eval(2);
+                    ctx.asserted(2);
+                    ctx.class("check:dual-data-at-dual-abscissa");
+                    let close = |a: f64, b: f64, sc: f64| (a - b).abs() <= 1e-10 * sc.max(a.abs()).max(b.abs()) + 1e-300;
+                    let ok = match &r {
+                        Caught::Ok((Some(c), Some(w), Some(d1))) => {
+                            let sc = v.real().abs().max(v.gradient1(names.clone()).iter().fold(0.0f64, |m, g| m.max(g.abs())));
+                            let gc = c.gradient1(names.clone());
+                            let gw = w.gradient1(names.clone());
+                            let gv = v.gradient1(names.clone());
+                            close(c.real(), v.real(), sc) && close(w.real(), v.real(), sc) && (0..m).all(|j| close(gc[j], gv[j], sc) && close(gw[j], gv[j], sc)) && close(w.gradient1(vec!["xv".to_string()])[0], d1.real(), d1.real().abs().max(sc))
+                        }
+                        _ => false,
+                    };
+                    if !ok {
+                        ctx.violation("C15|dual-data-at-dual-abscissa", case(json!({"x": x, "float_abscissa_value": v.real(), "what": "value / data sensitivities / own derivative differ, or the evaluation failed"})));
+                        return;
+                    }
+                }
                 let grad = v.gradient1(names.clone());
                 let f = sp.ppdnev_single(x, 0).unwrap_or(f64::NAN);
                 ctx.eval(1);
@@ -670,6 +693,31 @@ impl Prop for C15 {
                         return;
                     }
                 };
+                {
+                    let r = guarded(|| (sd.ppdnev_single_dual2(&Dual2::new(*x, vec![]), 0).ok(), sd.ppdnev_single_dual2(&Dual2::new(*x, vec!["xv".to_string()]), 0).ok(), sd.ppdnev_single(x, 1).ok(), sd.ppdnev_single(x, 2).ok()));
+                    ctx.eval(2);
+                    ctx.asserted(2);
+                    ctx.class("check:dual2-data-at-dual2-abscissa");
+                    let close = |a: f64, b: f64, sc: f64| (a - b).abs() <= 1e-10 * sc.max(a.abs()).max(b.abs()) + 1e-300;
+                    let ok = match &r {
+                        Caught::Ok((Some(c), Some(w), Some(d1), Some(d2))) => {
+                            let gv = v.gradient1(names.clone());
+                            let sc = v.real().abs().max(gv.iter().fold(0.0f64, |m, g| m.max(g.abs())));
+                            let gc = c.gradient1(names.clone());
+                            let gw = w.gradient1(names.clone());
+                            close(c.real(), v.real(), sc)
+                                && close(w.real(), v.real(), sc)
+                                && (0..m).all(|j| close(gc[j], gv[j], sc) && close(gw[j], gv[j], sc))
+                                && close(w.gradient1(vec!["xv".to_string()])[0], d1.real(), d1.real().abs().max(sc))
+                                && close(w.gradient2(vec!["xv".to_string()])[[0, 0]], d2.real(), d2.real().abs().max(d1.real().abs()).max(sc))
+                        }
+                        _ => false,
+                    };
+                    if !ok {
+                        ctx.violation("C15|dual2-data-at-dual2-abscissa", case(json!({"x": x, "float_abscissa_value": v.real(), "what": "value / data sensitivities / own derivatives differ, or the evaluation failed"})));
+                        return;
+                    }
+                }
                 let grad = v.gradient1(names.clone());
                 let hess = v.gradient2(names.clone());
                 ctx.eval(1);
